@@ -234,6 +234,19 @@ def run(facts, res):
                             src_ok = True
                 else:
                     src_ok = whole_iteration(cb, v) and contains_call(v, "get_revisions") and not contains_call(v, "get_leafs")
+                    if not src_ok:
+                        # the record may be assembled through a boxed array (`vec![..]`): follow the may-derive graph
+                        from ..flows import flow_of
+                        fl_ = flow_of(cb)
+                        nb = [bb for bb in fl_.call_blocks(fl_.operand_sources(t.args[1]))
+                              if cb.blocks[bb].term.callee is not None and cb.blocks[bb].term.callee.name == "next" and cfg.is_loop_header(bb)]
+                        for bb in nb:
+                            it = du.operand_term(cb.blocks[bb].term.args[0], 20)
+                            names = {callee_name(x) for x in walk(it) if x[0] == "call"}
+                            if "get_revisions" in names and not (names & {"take", "skip", "filter", "step_by", "take_while", "skip_while"}):
+                                src_ok = True
+                        if any(cb.blocks[bb].term.callee.name == "next" and contains_call(du.operand_term(cb.blocks[bb].term.args[0], 20), "get_leafs") for bb in nb):
+                            src_ok = False
                 staged = any(l.kind == "call" and callee_name(l.term) == "is_staging" and l.truth is True for l in lits_of(cb, bi, facts))
                 res.instance("K4", "%s: change record pushed for each element of the complete revision map (%s) under is_staging() (%s)" % (cb.path, src_ok, staged), cb.loc(t.line))
                 if not (src_ok and staged):
@@ -286,30 +299,33 @@ def _writer_tag(e):
 
 
 def _else_rejects(r, lc, facts):
-    from ..cfg import cfg_of
+    """a record whose arity matches none of the accepted ones is rejected with Err"""
     from ..common import assigns_of_return
     cfg = cfg_of(r)
-    # block reached when every len()==k test is false must lead to an Err without pushing a Change
+    errs = {b for b, _ in assigns_of_return(r, "Err")}
+    entries = []
     eqs = [(c, sites) for (op, c), sites in lc.items() if op == "Eq"]
     if not eqs:
         return False
     last = max(eqs, key=lambda e: e[0])
     for (bi, ln) in last[1]:
-        # the switch on this comparison: find block whose terminator switches on it
-        for k in range(len(r.blocks[bi].term.switch_edges())) if r.blocks[bi].term.kind == "switch" else []:
-            v, tgt = r.blocks[bi].term.switch_edges()[k]
-            if v == 0:
-                reach = cfg.reachable_blocks(cfg.edge_nodes[(bi, k)])
-                errs = {b for b, _ in assigns_of_return(r, "Err")}
-                # an Err assignment reachable right on the false edge before any loop re-entry
-                tb = tgt
-                for _ in range(12):
-                    if tb in errs:
-                        return True
-                    ss = cfg.block_succs(tb)
-                    if len(ss) != 1:
-                        break
-                    tb = ss[0]
+        t = r.blocks[bi].term
+        if t.kind != "switch":
+            continue
+        if t.j.get("discr_ty") == "bool":
+            for v, tgt in t.switch_edges():
+                if v == 0:
+                    entries.append(tgt)
+        else:
+            entries.append(t.j["otherwise"])     # `match len { 2 => .., 3 => .., _ => .. }`
+    for tb in entries:
+        for _ in range(14):
+            if tb in errs:
+                return True
+            ss = cfg.block_succs(tb)
+            if len(ss) != 1:
+                break
+            tb = ss[0]
     return False
 
 
